@@ -262,8 +262,8 @@ crate::harnesses! {
     @quick c19_read_2_be[3] => read(3, 3, 2, false);
     c19_read_4_le[5] => read(5, 4, 4, true);
     @quick c19_read_4_be[5] => read(3, 6, 4, false);
-    c19_read_8_le[9] => read(8, 3, 8, true);
-    c19_read_8_be[9] => read(2, 8, 8, false);
+    @stretch c19_read_8_le[9] => read(8, 3, 8, true);
+    @stretch c19_read_8_be[9] => read(2, 8, 8, false);
     c19_read_1_be_4_2[3] => read(4, 2, 1, false);
     @quick c19_flags[3] => flags(3, 3);
     c19_flags_4_1[3] => flags(4, 1);
